@@ -12,8 +12,8 @@ package interp
 // - bool
 // - numbers (all built-in int/float/complex types are distinguished)
 // - string
-// - map[value]value --- maps for which  usesBuiltinMap(keyType)
-//   *hashmap        --- maps for which !usesBuiltinMap(keyType)
+// - *smap --- maps (ordered, symbolic-key aware)
+// - sym / *symstr --- scalars / strings carrying SMT terms
 // - chan value
 // - []value --- slices
 // - iface --- interfaces.
@@ -38,14 +38,9 @@ import (
 	"bytes"
 	"fmt"
 	"go/types"
-	"io"
-	"reflect"
-	"strings"
-	"sync"
-	"unsafe"
+	"unicode/utf8"
 
 	"golang.org/x/tools/go/ssa"
-	"golang.org/x/tools/go/types/typeutil"
 )
 
 type value interface{}
@@ -79,94 +74,6 @@ type rtype struct {
 	t types.Type
 }
 
-// Hash functions and equivalence relation:
-
-// hashString computes the FNV hash of s.
-func hashString(s string) int {
-	var h uint32
-	for i := 0; i < len(s); i++ {
-		h ^= uint32(s[i])
-		h *= 16777619
-	}
-	return int(h)
-}
-
-var (
-	mu     sync.Mutex
-	hasher = typeutil.MakeHasher()
-)
-
-// hashType returns a hash for t such that
-// types.Identical(x, y) => hashType(x) == hashType(y).
-func hashType(t types.Type) int {
-	return int(hasher.Hash(t))
-}
-
-// usesBuiltinMap returns true if the built-in hash function and
-// equivalence relation for type t are consistent with those of the
-// interpreter's representation of type t.  Such types are: all basic
-// types (bool, numbers, string), pointers and channels.
-//
-// usesBuiltinMap returns false for types that require a custom map
-// implementation: interfaces, arrays and structs.
-//
-// Panic ensues if t is an invalid map key type: function, map or slice.
-func usesBuiltinMap(t types.Type) bool {
-	switch t := t.(type) {
-	case *types.Basic, *types.Chan, *types.Pointer:
-		return true
-	case *types.Named, *types.Alias:
-		return usesBuiltinMap(t.Underlying())
-	case *types.Interface, *types.Array, *types.Struct:
-		return false
-	}
-	panic(fmt.Sprintf("invalid map key type: %T", t))
-}
-
-func (x array) eq(t types.Type, _y interface{}) bool {
-	y := _y.(array)
-	tElt := t.Underlying().(*types.Array).Elem()
-	for i, xi := range x {
-		if !equals(tElt, xi, y[i]) {
-			return false
-		}
-	}
-	return true
-}
-
-func (x array) hash(t types.Type) int {
-	h := 0
-	tElt := t.Underlying().(*types.Array).Elem()
-	for _, xi := range x {
-		h += hash(t, tElt, xi)
-	}
-	return h
-}
-
-func (x structure) eq(t types.Type, _y interface{}) bool {
-	y := _y.(structure)
-	tStruct := t.Underlying().(*types.Struct)
-	for i, n := 0, tStruct.NumFields(); i < n; i++ {
-		if f := tStruct.Field(i); !f.Anonymous() {
-			if !equals(f.Type(), x[i], y[i]) {
-				return false
-			}
-		}
-	}
-	return true
-}
-
-func (x structure) hash(t types.Type) int {
-	tStruct := t.Underlying().(*types.Struct)
-	h := 0
-	for i, n := 0, tStruct.NumFields(); i < n; i++ {
-		if f := tStruct.Field(i); !f.Anonymous() {
-			h += hash(t, f.Type(), x[i])
-		}
-	}
-	return h
-}
-
 // nil-tolerant variant of types.Identical.
 func sameType(x, y types.Type) bool {
 	if x == nil {
@@ -180,12 +87,28 @@ func (x iface) eq(t types.Type, _y interface{}) bool {
 	return sameType(x.t, y.t) && (x.t == nil || equals(x.t, x.v, y.v))
 }
 
-func (x iface) hash(outer types.Type) int {
-	return hashType(x.t)*8581 + hash(outer, x.t, x.v)
+func (x array) eq(t types.Type, _y interface{}) bool {
+	y := _y.(array)
+	tElt := t.Underlying().(*types.Array).Elem()
+	for i, xi := range x {
+		if !equals(tElt, xi, y[i]) {
+			return false
+		}
+	}
+	return true
 }
 
-func (x rtype) hash(_ types.Type) int {
-	return hashType(x.t)
+func (x structure) eq(t types.Type, _y interface{}) bool {
+	y := _y.(structure)
+	tStruct := t.Underlying().(*types.Struct)
+	for i, n := 0, tStruct.NumFields(); i < n; i++ {
+		if f := tStruct.Field(i); f.Name() != "_" {
+			if !equals(f.Type(), x[i], y[i]) {
+				return false
+			}
+		}
+	}
+	return true
 }
 
 func (x rtype) eq(_ types.Type, y interface{}) bool {
@@ -252,63 +175,6 @@ func equals(t types.Type, x, y value) bool {
 	panic(fmt.Sprintf("comparing uncomparable type %s", t))
 }
 
-// Returns an integer hash of x such that equals(x, y) => hash(x) == hash(y).
-// The outer type is used only for the "unhashable" panic message.
-func hash(outer, t types.Type, x value) int {
-	switch x := x.(type) {
-	case bool:
-		if x {
-			return 1
-		}
-		return 0
-	case int:
-		return x
-	case int8:
-		return int(x)
-	case int16:
-		return int(x)
-	case int32:
-		return int(x)
-	case int64:
-		return int(x)
-	case uint:
-		return int(x)
-	case uint8:
-		return int(x)
-	case uint16:
-		return int(x)
-	case uint32:
-		return int(x)
-	case uint64:
-		return int(x)
-	case uintptr:
-		return int(x)
-	case float32:
-		return int(x)
-	case float64:
-		return int(x)
-	case complex64:
-		return int(real(x))
-	case complex128:
-		return int(real(x))
-	case string:
-		return hashString(x)
-	case *value:
-		return int(uintptr(unsafe.Pointer(x)))
-	case chan value:
-		return int(uintptr(reflect.ValueOf(x).Pointer()))
-	case structure:
-		return x.hash(t)
-	case array:
-		return x.hash(t)
-	case iface:
-		return x.hash(t)
-	case rtype:
-		return x.hash(t)
-	}
-	panic(fmt.Sprintf("unhashable type %v", outer))
-}
-
 // reflect.Value struct values don't have a fixed shape, since the
 // payload can be a scalar or an aggregate depending on the instance.
 // So store (and load) can't simply use recursion over the shape of the
@@ -366,32 +232,28 @@ func writeValue(buf *bytes.Buffer, v value) {
 	case nil, bool, int, int8, int16, int32, int64, uint, uint8, uint16, uint32, uint64, uintptr, float32, float64, complex64, complex128, string:
 		fmt.Fprintf(buf, "%v", v)
 
-	case map[value]value:
+	case *smap:
 		buf.WriteString("map[")
 		sep := ""
-		for k, e := range v {
-			buf.WriteString(sep)
-			sep = " "
-			writeValue(buf, k)
-			buf.WriteString(":")
-			writeValue(buf, e)
-		}
-		buf.WriteString("]")
-
-	case *hashmap:
-		buf.WriteString("map[")
-		sep := " "
-		for _, e := range v.entries() {
-			for e != nil {
+		if v != nil {
+			for _, e := range v.entries {
+				if e.deleted {
+					continue
+				}
 				buf.WriteString(sep)
 				sep = " "
 				writeValue(buf, e.key)
 				buf.WriteString(":")
-				writeValue(buf, e.value)
-				e = e.next
+				writeValue(buf, e.val)
 			}
 		}
 		buf.WriteString("]")
+
+	case sym:
+		fmt.Fprintf(buf, "sym(%v)", v.c)
+
+	case *symstr:
+		fmt.Fprintf(buf, "sym%q", v.s)
 
 	case chan value:
 		fmt.Fprintf(buf, "%v", v) // (an address)
@@ -470,55 +332,33 @@ func toString(v value) string {
 // ------------------------------------------------------------------------
 // Iterators
 
+// stringIter ranges over a (possibly symbolic) string by executing
+// unicode/utf8.DecodeRuneInString from the program's own SSA, so that the
+// byte-class decisions of UTF-8 decoding are recorded like any other branch.
 type stringIter struct {
-	*strings.Reader
-	i int
+	i   *interpreter
+	fr  *frame
+	s   value
+	pos int
 }
 
 func (it *stringIter) next() tuple {
-	okv := make(tuple, 3)
-	ch, n, err := it.ReadRune()
-	ok := err != io.EOF
-	okv[0] = ok
-	if ok {
-		okv[1] = it.i
-		okv[2] = ch
+	str, _ := strParts(it.s)
+	if it.pos >= len(str) {
+		return tuple{false, nil, nil}
 	}
-	it.i += n
-	return okv
-}
-
-type mapIter struct {
-	iter *reflect.MapIter
-	ok   bool
-}
-
-func (it *mapIter) next() tuple {
-	it.ok = it.iter.Next()
-	if !it.ok {
-		return []value{false, nil, nil}
+	rest := strSlice(it.s, it.pos, len(str))
+	var r value
+	var n int
+	if _, plain := rest.(string); plain {
+		rr, nn := utf8.DecodeRuneInString(rest.(string))
+		r, n = rr, nn
+	} else {
+		res := it.i.callByName(it.fr, "unicode/utf8", "DecodeRuneInString", []value{rest}).(tuple)
+		r = res[0]
+		n = int(it.i.intS(res[1], "rune width"))
 	}
-	k, v := it.iter.Key().Interface(), it.iter.Value().Interface()
-	return []value{true, k, v}
-}
-
-type hashmapIter struct {
-	iter *reflect.MapIter
-	ok   bool
-	cur  *entry
-}
-
-func (it *hashmapIter) next() tuple {
-	for {
-		if it.cur != nil {
-			k, v := it.cur.key, it.cur.value
-			it.cur = it.cur.next
-			return []value{true, k, v}
-		}
-		it.ok = it.iter.Next()
-		if !it.ok {
-			return []value{false, nil, nil}
-		}
-		it.cur = it.iter.Value().Interface().(*entry)
-	}
+	idx := it.pos
+	it.pos += n
+	return tuple{true, idx, r}
 }
